@@ -267,7 +267,7 @@ def run_connector_uniform(ctx, G, A):
     _not_constant(ctx, name, gen, lambda s: s.grid, [UniformRandomGenerator.__call__], keys=16)
 
 
-def run_lbf(ctx, G, A, F, L=2, coop=False):
+def run_lbf(ctx, G, A, F, L=2, coop=False, merge_over=None, nkeys=500):
     from jumanji.environments.routing.lbf.generator import RandomGenerator
     gen = RandomGenerator(G, A, F, G, max_agent_level=L, force_coop=coop)
     name = f"LBF.RandomGenerator[g{G}a{A}f{F}l{L}{'coop' if coop else ''}]"
@@ -291,8 +291,21 @@ def run_lbf(ctx, G, A, F, L=2, coop=False):
                 [jnp.abs(fp[i, 0] - fp[j, 0]) + jnp.abs(fp[i, 1] - fp[j, 1]) > 1 for i in range(F) for j in range(i + 1, F)])
         return out
 
-    ctx.prove(name, (KEY0,), ens, targets=[RandomGenerator.__call__, RandomGenerator.sample_food, RandomGenerator.sample_agents, RandomGenerator.sample_levels])
+    ctx.prove(name, (KEY0,), ens, targets=[RandomGenerator.__call__, RandomGenerator.sample_food, RandomGenerator.sample_agents, RandomGenerator.sample_levels],
+              merge_over=merge_over)
     _not_constant(ctx, name, gen, lambda s: s.agents.position, [RandomGenerator.__call__], keys=16)
+    if nkeys:   # the same clauses on real keys (bounded)
+        st = jax.jit(jax.vmap(gen))(jax.vmap(jax.random.PRNGKey)(jnp.arange(nkeys)))
+        ap, fp = np.asarray(st.agents.position), np.asarray(st.food_items.position)
+        af, ff = ap[:, :, 0] * G + ap[:, :, 1], fp[:, :, 0] * G + fp[:, :, 1]
+        on_food = (af[:, :, None] == ff[:, None, :]).any(axis=(1, 2))
+        dup = np.array([len(set(r.tolist())) < A for r in af])
+        food_bad = np.array([any(abs(fp[k, i, 0] - fp[k, j, 0]) + abs(fp[k, i, 1] - fp[k, j, 1]) <= 1 for i in range(F) for j in range(i + 1, F)) for k in range(nkeys)]) \
+            | np.any((fp < 1) | (fp > G - 2), axis=(1, 2))
+        bad = np.nonzero(on_food | dup | food_bad | np.any((ap < 0) | (ap >= G), axis=(1, 2)))[0]
+        wit = {"key": f"PRNGKey({int(bad[0])})", "food": fp[bad[0]].tolist(), "agents": ap[bad[0]].tolist(), "agent_on_food": bool(on_food[bad[0]]),
+               "failing_keys": bad[:20].tolist(), "n_failing": int(len(bad))} if len(bad) else None
+        ctx.bounded_check(f"{name}/C10.agents_and_food_on_distinct_cells_food_interior_and_non_adjacent", nkeys, int(len(bad)), f"native run on PRNGKey(0..{nkeys - 1})", wit)
 
 
 def run_rware(ctx, cfg):
@@ -962,19 +975,139 @@ def run_connector_randomwalk(ctx, G, A, nkeys, symbolic):
     _not_constant(ctx, name, gen, lambda s: s.grid, [RW.__call__], keys=8)
     if not symbolic:
         return
-    # symbolic, all sampler outcomes: the placement of heads and first moves (scan of `_initialize_starts_and_first_move`, unrolled)
-    grid0 = jnp.zeros((G, G), jnp.int32)
+    # symbolic, all sampler outcomes: ONE step of the placement scan, `_initialize_starts_and_first_move`, for agent `aid` on a symbolic flat grid that
+    # holds exactly what the previous steps wrote: for every earlier agent one head marker and one adjacent first-move marker, nothing else
+    N = G * G
+    adjacent_pairs = [(a, b) for a in range(N) for b in range(N) if abs(a // G - b // G) + abs(a % G - b % G) == 1]
+
+    def make(aid):
+        def req(key, fg):
+            out = {"cell_values_in_range": (fg >= 0) & (fg <= 3 * A)}
+            for i in range(A):
+                h, p = fg == 3 * i + 3, fg == 3 * i + 2     # the scan marks the head with get_target(i) and the first move with get_position(i)
+                if i < aid:
+                    adj = jnp.asarray(False)
+                    for (a, b) in adjacent_pairs:
+                        adj = adj | (h[a] & p[b])
+                    out[f"earlier_agent_{i}_placed_head_and_adjacent_first_move"] = (jnp.sum(h) == 1) & (jnp.sum(p) == 1) & adj & ~jnp.any(fg == 3 * i + 1)
+                else:
+                    out[f"agent_{i}_not_placed_yet"] = ~jnp.any(h | p | (fg == 3 * i + 1))
+            return out
+
+        def ens(key, fg):
+            (_, g2), (s_, f_) = gen._initialize_starts_and_first_move((key, fg), jnp.int32(aid))
+            inside = lambda x: (x >= 0) & (x < N)
+            free = lambda x: fg[jnp.clip(x, 0, N - 1)] == 0
+            return {"C10.head_inside_the_grid_on_a_free_cell": inside(s_) & free(s_),
+                    "C10.first_move_inside_the_grid_on_a_free_cell": inside(f_) & free(f_),
+                    "C10.first_move_is_a_neighbour_of_the_head_hence_distinct": jnp.abs(s_ // G - f_ // G) + jnp.abs(s_ % G - f_ % G) == 1,
+                    "canary.head_at_origin": s_ == 0}
+        return req, ens
+
+    for aid in range(min(A, 3)):
+        req, ens = make(aid)
+        ctx.prove(f"{name}._initialize_starts_and_first_move[agent {aid}]", (KEY0, jnp.zeros((N,), jnp.int32)), ens, req,
+                  targets=[RW._initialize_starts_and_first_move, RW._available_cells, RW._adjacent_cells, RW._is_cell_free, RW._is_cell_doubling_back])
+
+
+# ======================================================================================================================
+# 6./7. random-walk puzzles (solvable by construction + independent parity criterion), MMST split graphs (bounded), LBF bounded
+# ======================================================================================================================
+def run_sliding(ctx, g, L):
+    from jumanji.environments.logic.sliding_tile_puzzle.generator import RandomWalkGenerator as RW
+    gen = RW(g, L)
+    name = f"SlidingTilePuzzle.RandomWalkGenerator[{g}x{g},{L} moves]"
+    goal = np.asarray(gen._solved_puzzle)
+    ok_goal = np.array_equal(goal.ravel(), np.r_[np.arange(1, g * g), 0])
+    ctx.structural(f"{name}/C10.walk_starts_from_the_documented_goal", bool(ok_goal), "native evaluation (constant)", targets=[RW.make_solved_puzzle])
+
+    def solvable(puzzle, blank_row):
+        f = puzzle.ravel()
+        inv = sum(((f[i] > f[j]) & (f[i] != 0) & (f[j] != 0)).astype(jnp.int32) for i in range(g * g) for j in range(i + 1, g * g))
+        return (inv + (0 if g % 2 else 1) * (g - 1 - blank_row)) % 2 == 0
 
     def ens(key):
-        g2, ag = gen._initialize_agents(key, grid0)
-        st_, fm = ag.start, ag.position          # head cell and first-move cell (the walk's current end, i.e. the future target)
-        flat = jnp.concatenate([st_[:, 0] * G + st_[:, 1], fm[:, 0] * G + fm[:, 1]])
-        return {"C10.heads_inside_grid": (st_ >= 0) & (st_ < G),
-                "C10.first_moves_inside_grid": (fm >= 0) & (fm < G),
-                "C10.heads_and_first_moves_pairwise_distinct": _pairwise_distinct(flat),
-                "canary.first_head_at_origin": (st_[0, 0] == 0) & (st_[0, 1] == 0)}
+        s = gen(key)
+        r, c = s.empty_tile_position[0], s.empty_tile_position[1]
+        return {"C10.puzzle_is_a_permutation_of_the_tiles": jnp.stack([jnp.sum(s.puzzle == v) == 1 for v in range(g * g)]),
+                "C10.blank_inside_grid_where_recorded": (r >= 0) & (r < g) & (c >= 0) & (c < g) & (s.puzzle[jnp.clip(r, 0, g - 1), jnp.clip(c, 0, g - 1)] == 0),
+                "C10.solvable_by_the_inversion_parity_criterion": solvable(s.puzzle, r),
+                "C10.step_count_zero": s.step_count == 0,
+                "canary.puzzle_is_the_goal": jnp.all(s.puzzle == goal)}
 
-    ctx.prove(name + "._initialize_agents", (KEY0,), ens, targets=[RW._initialize_agents, RW._initialize_starts_and_first_move, RW._available_cells, RW._adjacent_cells], merge_over=64)
+    ctx.prove(name, (KEY0,), ens, targets=[RW.__call__, RW._make_random_move, RW._swap_tiles])
+    # default walk length (100 moves): bounded, native
+    n = 200
+    gen2 = RW(g, 100)
+    st = jax.jit(jax.vmap(gen2))(jax.vmap(jax.random.PRNGKey)(jnp.arange(n)))
+    pz, pos = np.asarray(st.puzzle), np.asarray(st.empty_tile_position)
+    bad = [k for k in range(n) if not (sorted(pz[k].ravel().tolist()) == list(range(g * g)) and pz[k][tuple(pos[k])] == 0 and bool(solvable(jnp.asarray(pz[k]), int(pos[k][0]))))]
+    ctx.bounded_check(f"SlidingTilePuzzle.RandomWalkGenerator[{g}x{g},100 moves]/C10.permutation_blank_consistent_and_parity_solvable", n, len(bad),
+                      f"native run on PRNGKey(0..{n - 1})", {"key": f"PRNGKey({bad[0]})", "puzzle": pz[bad[0]].tolist()} if bad else None)
+    _not_constant(ctx, name, gen2, lambda s_: s_.puzzle, [RW.__call__], keys=8)
+
+
+def run_rubiks(ctx, n, L):
+    from jumanji.environments.logic.rubiks_cube.generator import ScramblingGenerator as SG
+    from jumanji.environments.logic.rubiks_cube import utils as U
+    gen = SG(n, L)
+    name = f"RubiksCube.ScramblingGenerator[{n},{L} scrambles]"
+    nA = 18 * (n // 2)
+
+    def ens(key):
+        st = gen(key)
+        acts = gen.generate_actions_for_scramble(jax.random.split(key)[1])   # the same sampler call => the same (memoised) outcomes
+        cube = U.make_solved_cube(n)
+        for t in range(L):
+            cube = U.rotate_cube(cube, acts[t])
+        return {"C10.cube_is_reached_from_the_solved_cube_by_legal_moves": jnp.all(st.cube == cube),
+                "C10.scramble_actions_in_range": (acts >= 0) & (acts < nA),
+                "C10.every_colour_on_exactly_n_squared_stickers": jnp.stack([jnp.sum(st.cube == col) == n * n for col in range(6)]),
+                "C10.step_count_zero": st.step_count == 0,
+                "canary.cube_is_solved": U.is_solved(st.cube)}
+
+    ctx.prove(name, (KEY0,), ens, targets=[SG.__call__, SG.generate_cube, SG.generate_actions_for_scramble, U.scramble_solved_cube], merge_over=8)
+    _not_constant(ctx, name, SG(n, 10), lambda s_: s_.cube, [SG.__call__], keys=8)
+
+
+def run_mmst_bounded(ctx, cfgs, nkeys):
+    from jumanji.environments.routing.mmst.generator import SplitRandomGenerator as G
+    from jumanji.environments.routing.mmst.constants import EMPTY_NODE
+    for cfg in cfgs:
+        gen = G(*cfg)
+        nN, nE, deg, A, per, _ = cfg
+        name = "MMST.SplitRandomGenerator[n%d,e%d,deg%d,a%d,k%d]" % cfg[:5]
+        st = jax.jit(jax.vmap(gen))(jax.vmap(jax.random.PRNGKey)(jnp.arange(nkeys)))
+        adj, types, todo, pos = (np.asarray(x) for x in (st.adj_matrix, st.node_types, st.nodes_to_connect, st.positions))
+        parts = np.array_split(np.arange(nN), A)       # the documented split: agent i's sub-graph
+        bad = []
+        for k in range(nkeys):
+            a = adj[k] != 0
+            res = {"adjacency_symmetric_no_self_loops": bool(np.array_equal(a, a.T) and not np.any(np.diag(a))),
+                   "degree_at_most_max_degree": bool(a.sum(axis=1).max() <= deg), "num_edges_as_configured": int(a.sum()) // 2 == nE,
+                   "nodes_to_connect_distinct_in_range": len(set(todo[k].ravel().tolist())) == A * per and bool(np.all((todo[k] >= 0) & (todo[k] < nN))),
+                   "node_types_mark_exactly_the_nodes_to_connect": all(set(np.nonzero(types[k] == i)[0].tolist()) == set(todo[k][i].tolist()) for i in range(A))
+                   and int((types[k] == EMPTY_NODE).sum()) == nN - A * per,
+                   "agent_starts_on_one_of_its_nodes": all(int(pos[k][i]) in todo[k][i].tolist() for i in range(A))}
+            solv = True
+            for i in range(A):   # witness of solvability: agent i's nodes lie in its own connected sub-graph; the sub-graphs are node-disjoint
+                sub = np.zeros(nN, bool)
+                sub[parts[i]] = True
+                reach = np.zeros(nN, bool)
+                todo_i = todo[k][i]
+                stack = [int(todo_i[0])]
+                reach[stack[0]] = True
+                while stack:
+                    u = stack.pop()
+                    for v in np.nonzero(a[u] & sub & ~reach)[0]:
+                        reach[v] = True
+                        stack.append(int(v))
+                solv = solv and bool(np.all(sub[todo_i])) and bool(np.all(reach[todo_i]))
+            res["each_agent_can_span_its_nodes_inside_its_own_disjoint_subgraph"] = solv
+            if not all(res.values()):
+                bad.append({"key": f"PRNGKey({k})", **res})
+        ctx.bounded_check(f"{name}/C10.graph_symmetric_loop_free_and_split_instance_solvable", nkeys, len(bad), f"native run on PRNGKey(0..{nkeys - 1})", bad[0] if bad else None)
+        _not_constant(ctx, name, gen, lambda s_: s_.adj_matrix, [G.__call__], keys=4)
 
 
 # ======================================================================================================================
@@ -1004,9 +1137,10 @@ def tasks(tier):
     # ---- 2. entities on distinct free cells
     for (G, A) in (((3, 2), (4, 3), (2, 2)) if q else ((3, 2), (4, 3), (2, 2), (5, 4), (6, 6))):
         out[f"Connector.UniformRandomGenerator[{G}x{G}a{A}]"] = (run_connector_uniform, {"G": G, "A": A})
-    for kw in (({"G": 6, "A": 2, "F": 2}, {"G": 5, "A": 3, "F": 1, "L": 3}) if q else
-               ({"G": 6, "A": 2, "F": 2}, {"G": 5, "A": 3, "F": 1, "L": 3}, {"G": 6, "A": 2, "F": 2, "coop": True}, {"G": 7, "A": 4, "F": 3})):
-        out["LBF.RandomGenerator[g%da%df%dl%d%s]" % (kw["G"], kw["A"], kw["F"], kw.get("L", 2), "coop" if kw.get("coop") else "")] = (run_lbf, kw)
+    for kw in (({"G": 6, "A": 2, "F": 2}, {"G": 5, "A": 3, "F": 1, "L": 3}, {"G": 8, "A": 20, "F": 3, "merge_over": 8, "nkeys": 2000}) if q else
+               ({"G": 6, "A": 2, "F": 2}, {"G": 5, "A": 3, "F": 1, "L": 3}, {"G": 6, "A": 2, "F": 2, "coop": True}, {"G": 7, "A": 4, "F": 3},
+                {"G": 8, "A": 20, "F": 3, "merge_over": 8, "nkeys": 20000})):
+        out["LBF.RandomGenerator[g%da%df%dl%d%s]" % (kw["G"], kw["A"], kw["F"], kw.get("L", 2), "coop" if kw.get("coop") else "")] = (run_lbf, dict(kw))
     for cfg in (((1, 3, 1, 1, 1, 2), (1, 3, 1, 2, 1, 2), (2, 1, 2, 3, 1, 1)) if q else ((1, 3, 1, 1, 1, 2), (1, 3, 1, 2, 1, 2), (2, 1, 2, 3, 1, 1), (2, 3, 1, 4, 1, 4))):
         out["RobotWarehouse.RandomGenerator[%d,%d,%d,a%d,s%d,q%d]" % cfg] = (run_rware, {"cfg": cfg})
     for (R, C) in (((5, 7), (7, 5), (3, 3), (4, 6)) if q else ((5, 7), (7, 5), (3, 3), (4, 6), (10, 10), (2, 2))):
@@ -1032,6 +1166,13 @@ def tasks(tier):
     # ---- 5. Connector random walk
     for (G, A, n, sym) in (((3, 4, 300, True), (4, 6, 300, False), (10, 10, 600, False)) if q else ((3, 4, 1000, True), (4, 6, 1000, True), (10, 10, 2000, False), (6, 3, 1000, False))):
         out[f"Connector.RandomWalkGenerator[{G}x{G}a{A}]"] = (run_connector_randomwalk, {"G": G, "A": A, "nkeys": n, "symbolic": sym})
+    # ---- 6./7.
+    for (g, L) in (((2, 3), (3, 3)) if q else ((2, 3), (3, 3), (3, 5), (4, 2))):
+        out[f"SlidingTilePuzzle.RandomWalkGenerator[{g}x{g},{L} moves]"] = (run_sliding, {"g": g, "L": L})
+    for (n, L) in (((2, 3), (3, 2)) if q else ((2, 3), (3, 3), (4, 2), (5, 2))):
+        out[f"RubiksCube.ScramblingGenerator[{n},{L} scrambles]"] = (run_rubiks, {"n": n, "L": L})
+    out["MMST.SplitRandomGenerator[bounded]"] = (run_mmst_bounded, {"cfgs": ((36, 72, 5, 3, 4, 70), (12, 18, 4, 2, 3, 20)) if q else ((36, 72, 5, 3, 4, 70), (12, 18, 4, 2, 3, 20), (30, 60, 5, 4, 3, 50)),
+                                                                    "nkeys": 100 if q else 1000})
     return out
 
 
